@@ -26,7 +26,8 @@ Flags (exclusions by construction; all default to the full language):
                   globals, float_globals, dead_code, data, unreachable, nan_consts (any NaN constant),
                   nan_payload_consts (NaN constants other than the canonical +qNaN), snan32_consts (f32 sNaN),
                   br_table, loop_result, export_globals, export_float_globals, inf_consts,
-                  elem_imports, nan_args, dead_loops (a loop inside code that follows a br/return/...)
+                  elem_imports, nan_args, dead_loops (a loop inside code that follows a br/return/...),
+                  grow_negative (memory.grow by a page count >= 2^31)
 """
 
 import struct
@@ -268,7 +269,8 @@ class FnCtx:
     def grow(self):
         if "grow" in self.flags.guards:
             return ["memory.grow", [], [cnode("i32", 0)]]
-        return ["memory.grow", [], [cnode("i32", self.draw(st.sampled_from([0, 1, 1, 2, 3, 65536, -1])))]]
+        amounts = [0, 1, 1, 2, 3, 65536] + ([-1] if self.flags.has("grow_negative") else [])
+        return ["memory.grow", [], [cnode("i32", self.draw(st.sampled_from(amounts)))]]
 
     def unop(self, t, op, d):
         a = self.expr(t, d - 1)
